@@ -27,65 +27,81 @@ func init() {
 // invalidates: the instruction stores nil into a cache slot's Obj, or calls a
 // go-nfsd function from which such a store is reachable.
 func invalidates(c *Ctx) func(ssa.Instruction) bool {
-	P := c.P
+	P, V := c.P, c.V
 	cslot := P.Named("cache", "Cslot")
-	direct := func(in ssa.Instruction) bool {
+	look := P.Func("cache.(*Cache).LookupSlot")
+	// a store of nil into the Obj of the slot looked up for ip.Inum, ip ranging over op.inodes
+	dropStore := func(in ssa.Instruction) (*ssa.Next, bool) {
 		st, ok := in.(*ssa.Store)
 		if !ok {
-			return false
+			return nil, false
 		}
-		n, fl, _ := FieldOf(st.Addr)
+		n, fl, slot := FieldOf(st.Addr)
 		if n == nil || n != cslot || fl != "Obj" {
-			return false
+			return nil, false
 		}
-		if isNilConst(st.Val) {
-			return true
+		if !isNilConst(st.Val) {
+			if mi, ok := st.Val.(*ssa.MakeInterface); !ok || !isNilConst(mi.X) {
+				return nil, false
+			}
 		}
-		if mi, ok := st.Val.(*ssa.MakeInterface); ok && isNilConst(mi.X) {
-			return true
+		lc, ok := stripConv(slot).(*ssa.Call)
+		if !ok || look == nil || lc.Call.StaticCallee() != look {
+			return nil, false
 		}
-		return false
-	}
-	memo := map[*ssa.Function]bool{}
-	var fnInv func(f *ssa.Function, d int) bool
-	fnInv = func(f *ssa.Function, d int) bool {
-		if v, ok := memo[f]; ok {
-			return v
+		nm, f2, base, _ := loadedField(argN(lc, 0))
+		if nm != V.Inode || f2 != "Inum" {
+			return nil, false
 		}
-		memo[f] = false
-		if !IsRepoFunc(f) || d > 4 {
-			return false
-		}
-		for _, b := range f.Blocks {
-			for _, in := range b.Instrs {
-				if direct(in) {
-					memo[f] = true
-					return true
-				}
-				if _, ok := in.(*ssa.Call); ok {
-					for _, cal := range P.Callees(in) {
-						if fnInv(cal, d+1) {
-							memo[f] = true
-							return true
-						}
+		for w := range bwdSources(base) {
+			if nx, ok := w.(*ssa.Next); ok {
+				if rg, ok := nx.Iter.(*ssa.Range); ok {
+					if n2, f3, _, _ := loadedField(rg.X); n2 == V.FsTxn && f3 == "inodes" {
+						return nx, true
 					}
 				}
 			}
 		}
-		return false
+		return nil, false
 	}
-	return func(in ssa.Instruction) bool {
-		if direct(in) {
-			return true
+	// dropsAll: f clears the cached object of every inode recorded in op.inodes, on every path
+	dropsAll := func(f *ssa.Function) bool {
+		if !IsRepoFunc(f) || f.Blocks == nil {
+			return false
 		}
-		if _, ok := in.(*ssa.Call); ok {
-			for _, cal := range P.Callees(in) {
-				if fnInv(cal, 0) {
+		for _, b := range f.Blocks {
+			for _, in := range b.Instrs {
+				nx, ok := dropStore(in)
+				if !ok {
+					continue
+				}
+				h := nx.Block()
+				every, nback := true, 0
+				for _, p := range h.Preds {
+					if h.Dominates(p) {
+						nback++
+						if !b.Dominates(p) {
+							every = false // an iteration can skip the store
+						}
+					}
+				}
+				isNext := func(x ssa.Instruction) bool { return x == ssa.Instruction(nx) }
+				if every && nback > 0 && MustAfter(f, isNext, nil)(f.Blocks[0].Instrs[0]) {
 					return true
 				}
 			}
 		}
 		return false
+	}
+	always := P.NewAlways(func(in ssa.Instruction) bool {
+		cal := staticCallee(in)
+		return cal != nil && dropsAll(cal)
+	})
+	return func(in ssa.Instruction) bool {
+		if _, ok := in.(*ssa.Call); !ok {
+			return false
+		}
+		return always.Instr(in)
 	}
 }
 
@@ -169,29 +185,17 @@ func ruleA2(c *Ctx, id string) {
 		okAlloc := everyPathTakes(f, rel.Block(), through, zeroEdge("NAllocated"))
 		R.Check(okDirty && okAlloc, id, "fstxn.Abort|cached inodes dropped before release", P.Pos(rel.Pos()), "every path of Abort invalidates the cached objects of the held inodes before releasing their locks, except paths on which the transaction has no dirty buffer AND no allocation (it cannot have modified a cached inode, by C10.W1)", "skip paths take both the NDirty()==0 and the NAllocated()==0 edge", fmt.Sprintf("a path releases the locks without invalidation although the transaction may have modified cached inodes (skips only under: no dirty buffer=%v, no allocation=%v): the inode cache keeps the aborted transaction's mutations (e.g. a RENAME that fails in AddName has already removed the source name from the cached directory; a WRITE that fails after allocating an indirect root keeps the pointer to the block PostAbort gives back)", okDirty, okAlloc))
 	}
-	// the invalidation must cover every held inode: it ranges over op.inodes
+	// the invalidation must cover every held inode: it ranges over op.inodes and clears the slot of each
+	// (this is part of what inv recognises: a nil store per iteration of a range over op.inodes)
 	okLoop := false
 	for _, b := range f.Blocks {
 		for _, in := range b.Instrs {
 			if inv(in) {
-				if reachableFrom(in, in) {
-					okLoop = true
-				}
-				if _, isCall := in.(*ssa.Call); isCall {
-					for _, cal := range P.Callees(in) {
-						for _, b2 := range cal.Blocks {
-							for _, in2 := range b2.Instrs {
-								if inv(in2) && reachableFrom(in2, in2) {
-									okLoop = true
-								}
-							}
-						}
-					}
-				}
+				okLoop = true
 			}
 		}
 	}
-	R.Check(okLoop, id, "fstxn.Abort|invalidation covers all held inodes", P.Pos(f.Pos()), "the invalidation runs in a loop (over the transaction's inodes)", "in a cycle", "only some cached inodes are dropped (or none)")
+	R.Check(okLoop, id, "fstxn.Abort|invalidation covers all held inodes", P.Pos(f.Pos()), "Abort calls a function that, for every inode in op.inodes, stores nil into the cache slot looked up for that inode's number, on every iteration", "nil store per iteration of the range over op.inodes", "only some cached inodes are dropped, or the cached object is replaced by something other than 'absent' (e.g. re-read through the aborting transaction, which sees its own aborted writes)")
 }
 
 func ruleA4(c *Ctx, id string) {
